@@ -1,3 +1,6 @@
 import Proofs.Slots
 import Proofs.Scan
 import Proofs.Report
+import Proofs.Ledger
+import Proofs.SchedInv
+import Proofs.WFCheck
